@@ -15,8 +15,10 @@ from lib.engine import R, V, custom_part
 
 ID = 'C19'
 RULE = ('every Specs/**/*.json case not marked NotSupported/NotSupportedByDesign for Python, as parameterised by the repository\'s '
-        'own test runners (model, extractor, parser, merged-parser level, options from the file names); both tiers run all runners; '
-        'non-trivial = executed case that expects at least one entity; distinct = pytest node id')
+        'own test runners (model, extractor, parser, merged-parser level, options from the file names); both tiers run all runners; the cases are '
+        'run a second time with every test body on a fresh worker thread (quick: model-level runners, thorough: all), since the specified '
+        'result may not depend on the calling thread; '
+        'non-trivial = executed case that expects at least one entity; distinct = (pytest node id, thread mode)')
 ASSUMPTIONS = ['the repository\'s test runners (Python/tests) are the normative reading of "returns exactly the specified entities"',
                'pytest 9 / xdist as installed in /venv']
 
@@ -26,12 +28,16 @@ FULL = ['tests/test_runner_number.py', 'tests/test_runner_number_with_unit.py', 
         'tests/test_runner_choice.py', 'tests/test_runner_datetime.py']
 
 
-def _pytest(args, out_prefix, nproc=16):
+def _pytest(args, out_prefix, nproc=16, on_thread=False):
     pydir = os.path.join(env.REPO, 'Python')
     envv = dict(os.environ)
     envv['PYTHONPATH'] = os.pathsep.join([os.path.join(env.VERIF, 'pytest_plugins')] + env.pythonpath())
     envv['PYTHONDONTWRITEBYTECODE'] = '1'
     envv['VRF_C19_OUT'] = out_prefix
+    if on_thread:
+        envv['VRF_C19_THREAD'] = '1'
+    else:
+        envv.pop('VRF_C19_THREAD', None)
     cmd = [sys.executable, '-W', 'ignore', '-m', 'pytest', '-p', 'no:cacheprovider', '-p', 'vrf_c19_plugin', '-q', '--no-header',
            '-o', 'addopts=', '--tb=no', '-x' if False else '--maxfail=100000']
     if nproc > 1:
@@ -46,12 +52,16 @@ def _pytest(args, out_prefix, nproc=16):
     return p, recs
 
 
-def run(ctx):
-    out_prefix = os.path.join(env.VERIF, '.work', 'C19-out-%d' % os.getpid())
+def run_on_thread(ctx):
+    return run(ctx, on_thread=True)
+
+
+def run(ctx, on_thread=False):
+    out_prefix = os.path.join(env.VERIF, '.work', 'C19-out-%s%d' % ('t' if on_thread else '', os.getpid()))
     os.makedirs(os.path.dirname(out_prefix), exist_ok=True)
     # both tiers run the whole corpus: a regression confined to one level (extractor / parser / merged parser) or to one options-specific
     # spec file must not wait for the thorough tier
-    p, recs = _pytest(FULL, out_prefix)
+    p, recs = _pytest(FULL if not on_thread or ctx.tier != 'quick' else QUICK, out_prefix, on_thread=on_thread)
     tail = '\n'.join(p.stdout.strip().splitlines()[-15:])
     if p.returncode not in (0, 1) or ' error' in tail.splitlines()[-1] or not recs:
         raise env.HarnessError('pytest run failed (rc=%s):\n%s' % (p.returncode, tail))
@@ -59,17 +69,17 @@ def run(ctx):
         if rec['outcome'] == 'skipped':
             ctx.stats.labels['skipped_not_supported'] = ctx.stats.labels.get('skipped_not_supported', 0) + 1
             continue
-        case = {'nodeid': rec['nodeid']}
+        case = {'nodeid': rec['nodeid'], 'on_thread': on_thread}
 
         def fn(case, rec=rec):
             vs = []
             if rec['outcome'] != 'passed':
                 vs.append(V('SPEC_MISMATCH', {'nodeid': rec['nodeid'], 'input': rec.get('input'), 'culture': rec.get('culture'),
                                               'model': rec.get('model'), 'report': rec.get('longrepr')},
-                            sig=rec['nodeid'], bucket='SPEC:%s:%s' % (rec['nodeid'].split('::')[0], rec.get('culture'))))
+                            sig=rec['nodeid'], bucket='SPEC%s:%s:%s' % ('@thread' if on_thread else '', rec['nodeid'].split('::')[0], rec.get('culture'))))
             runner = rec['nodeid'].split('::')[0].replace('tests/test_runner_', '').replace('.py', '')
-            return R(vs, nontrivial=rec['nontrivial'], labels=['runner:' + runner, 'culture:%s' % rec.get('culture')],
-                     obs={'input': rec.get('input'), 'outcome': rec['outcome']}, key=rec['nodeid'])
+            return R(vs, nontrivial=rec['nontrivial'], labels=['runner:' + runner, 'culture:%s' % rec.get('culture'), 'worker-thread' if on_thread else 'main-thread'],
+                     obs={'input': rec.get('input'), 'outcome': rec['outcome']}, key=[rec['nodeid'], on_thread])
         new, r = ctx.process(case, fn=fn)
         for v in new:
             if ctx.stats.vcount.get(v.bucket, 0) < 2:
@@ -82,7 +92,7 @@ def run(ctx):
 def replay(case):
     out_prefix = os.path.join(env.VERIF, '.work', 'C19-replay-%d' % os.getpid())
     os.makedirs(os.path.dirname(out_prefix), exist_ok=True)
-    p, recs = _pytest([case['nodeid']], out_prefix, nproc=1)
+    p, recs = _pytest([case['nodeid']], out_prefix, nproc=1, on_thread=bool(case.get('on_thread')))
     recs = [r for r in recs if r['nodeid'] == case['nodeid']]
     if not recs:
         raise env.HarnessError('node %s was not executed:\n%s' % (case['nodeid'], p.stdout[-800:]))
@@ -94,4 +104,5 @@ def replay(case):
 
 
 def parts(tier, seed):
-    return [custom_part('spec-runners', run, exhaustive=True, replay=replay)]
+    return [custom_part('spec-runners', run, exhaustive=True, replay=replay),
+            custom_part('spec-runners-on-a-worker-thread', run_on_thread, exhaustive=True, replay=replay)]
